@@ -207,8 +207,16 @@ def r2_provenance(ctx):
                 keys = _dict_keys(d)
                 comp = _comp_env(d, g.node)
                 chk = ex.expand(keys["checks"])
-                ok_c = isinstance(chk, ast.Call) and callee_last(chk) == "_get_array_check_statistics" and len(chk.args) == 2
-                obj = chk.args[0] if ok_c else None
+                chk_args = None
+                if isinstance(chk, ast.Call) and callee_last(chk) == "_get_array_check_statistics":
+                    helper = m.functions.get("_get_array_check_statistics")
+                    hp = helper.positional if helper is not None else ["x", "data_type"]
+                    a0 = chk.args[0] if chk.args else kw(chk, hp[0])
+                    a1 = chk.args[1] if len(chk.args) > 1 else kw(chk, hp[1])
+                    if a0 is not None and a1 is not None:
+                        chk_args = (a0, a1)
+                ok_c = chk_args is not None
+                obj = chk_args[0] if ok_c else None
                 obj_steps = _steps(obj, ex, comp) if obj is not None else None
                 # nullable: bool(<obj>.isna().any()) directly, or <frame>.isna().any()[key] for the column named key
                 nul = ex.expand(keys["nullable"])
@@ -238,7 +246,7 @@ def r2_provenance(ctx):
                         if isinstance(base, ast.DictComp) and isinstance(base.value, ast.Call) and callee_last(base.value) == "_get_array_type":
                             s2 = _steps(base.value.args[0], ex, _comp_env_of(base))
                             ok_d = obj_steps is not None and s2[0] == obj_steps[0] and s2[1] == obj_steps[1]
-                ok_c = ok_c and txt(ex.expand(chk.args[1])) == txt(dte) if ok_c else False
+                ok_c = ok_c and txt(ex.expand(chk_args[1])) == txt(dte) if ok_c else False
                 ctx.ob("R2", g, f"{fname}: nullable <- isna().any() of the inferred object", ok_n, f"`{txt(nul)[:80]}`")
                 ctx.ob("R2", g, f"{fname}: dtype <- _get_array_type of the inferred object", ok_d, f"`{txt(dte)[:80]}`")
                 ctx.ob("R2", g, f"{fname}: checks <- _get_array_check_statistics(same object, same dtype)", ok_c, f"`{txt(chk)[:80]}`")
